@@ -4606,6 +4606,35 @@ def fmt_out(o):
     return "does not terminate (step budget exhausted)"
 
 
+class _Refused:
+    """which witness definitions the code refused at definition time, per building block"""
+
+    def __init__(self):
+        self.left, self.gone = {}, {}
+
+    def build(self, r, lab):
+        """the codec object of witness definition r, or None when the code refuses the definition at DEFINITION time
+        with its own ProtocolError: a definition the code refuses to build takes part in no encoding or decoding, so it
+        is no counterexample to an encode / decode law (witness not applicable)"""
+        k = type(r).__name__
+        try:
+            obj = r.build(lab)
+        except PyRaise as ex:
+            if ex.cls_name != "ProtocolError":
+                raise
+            self.gone[k] = self.gone.get(k, 0) + 1
+            self.left.setdefault(k, 0)
+            return None
+        self.left[k] = self.left.get(k, 0) + 1
+        return obj
+
+    def close(self, fam):
+        """a building block none of whose witnesses is left has not been decided"""
+        none = sorted(k[1:] for k, n in self.left.items() if n == 0)
+        if none and fam.unknown is None:
+            fam.unknown = "every %s witness definition is refused at definition time (ProtocolError)" % " / ".join(none)
+
+
 class Family:
     """one obligation: a law evaluated over a family of witnesses; found = first counterexample"""
 
@@ -5400,7 +5429,11 @@ def w_reuse(lab, fams):
                 if back is None or back[0] != "ok" or back[1][1] != len(enc[1]) or any(back[1][0].get(k) != x for k, x in v.items()):
                     raise AnalysisError("internal: reference model is not an inverse pair on %r" % (ref,))
                 pairs.append((v, enc[1], back))
-            e = ref.build(lab)
+            rf = _Refused()
+            e, e2 = rf.build(ref, lab), rf.build(ref, lab)
+            if e is None or e2 is None:
+                fam.unknown = "witness definition %r is refused at definition time (ProtocolError)" % (ref,)
+                continue
             for i, (v, octets, back) in enumerate(pairs):
                 fam.check("message #%d: to_bytes() of %s" % (i, _short_txt(v, 200)), lab.e_enc(e, v), ("ok", octets))
             for i, (v, octets, back) in enumerate(pairs):
@@ -5408,7 +5441,6 @@ def w_reuse(lab, fams):
                 fam.check("message #%d: from_bytes(%r)" % (i, octets), got, back)
                 if got[0] == "ok":
                     fam.check("message #%d: to_bytes() of what from_bytes(%r) returned" % (i, octets), lab.run(lambda: norm(lab.meth(e, "to_bytes"))), ("ok", octets))
-            e2 = ref.build(lab)
             for i, (v, octets, back) in reversed(list(enumerate(pairs))):
                 j = (i + 1) % len(pairs)
                 fam.check("second object, message #%d decoded after message #%d: from_bytes(%r)" % (i, j, octets), lab.e_dec(e2, octets), back)
@@ -5427,7 +5459,7 @@ def w_reuse(lab, fams):
     try:
         bylen = lambda v, d: v["n"]
         cases = [
-            (RSpare("p", filler=b"ab", getlen=bylen), [{"n": n} for n in (3, 1, 0, 5, 3, 2)]),
+            (RSpare("p", filler=b"\xab", getlen=bylen), [{"n": n} for n in (3, 1, 0, 5, 3, 2)]),
             (RSpare("p", getlen=bylen, pres=lambda v: v["n"] != 2), [{"n": n} for n in (2, 4, 2, 1, 4)]),
             (RBuf("b", getlen=bylen), [{"n": n, "b": bytes(range(0x41, 0x41 + n))} for n in (2, 5, 0, 3, 5)]),
             (RBuf("b"), [{"b": b} for b in (b"abcd", b"", b"xy", b"abcdefgh")]),
@@ -5436,8 +5468,11 @@ def w_reuse(lab, fams):
             (RBits([("a", 3, None), ("b", 5, None), ("c", 8, None)]), [{"a": a, "b": b, "c": c} for a, b, c in ((7, 31, 255), (0, 0, 0), (5, 10, 0xa5), (0, 0, 0), (2, 21, 0x5a))]),
             (RBits([("f12", 12, None), (None, 2, None), ("f2", 2, None)], "lsb"), [{"f12": a, "f2": b} for a, b in ((0xfff, 3), (0, 0), (0xabc, 1), (0x001, 2))]),
         ]
+        rf = _Refused()
         for r, seq in cases:
-            f = r.build(lab)
+            f = rf.build(r, lab)
+            if f is None:
+                continue
             steps = []
             for v in seq:
                 enc = ref_out(lambda: r.to_bytes(dict(v)))
@@ -5452,6 +5487,7 @@ def w_reuse(lab, fams):
                 fam.check("%r, use #%d: from_bytes(%r, %r)" % (r, i, ctx, data), lab.f_dec(f, data, ctx), ref_fdec(r, data, ctx))
             for i, (v, octets) in reversed(list(enumerate(steps))):
                 fam.check("%r, use #%d again after the others: to_bytes(%r)" % (r, i, v), lab.f_enc(f, v), ("ok", octets))
+        rf.close(fam)
     except MachUnknown as ex:
         fam.unknown = str(ex)
     except PyRaise as ex:
@@ -5464,12 +5500,15 @@ def w_reuse(lab, fams):
     fams.append(fam)
     try:
         bylen = lambda v, d: v["n"]
-        pairs = [(RSpare("p", filler=b"\x01", getlen=bylen), RSpare("q", filler=b"\x02\x03", getlen=bylen), [{"n": n} for n in (2, 2, 0, 3, 1)]),
+        pairs = [(RSpare("p", filler=b"\x01", getlen=bylen), RSpare("q", filler=b"\x02", getlen=bylen), [{"n": n} for n in (2, 2, 0, 3, 1)]),
                  (RSpare("p", 2), RSpare("q", 2, filler=b"\xff"), [{}, {}, {}]),
                  (RBuf("p", getlen=bylen), RBuf("q", getlen=lambda v, d: 2 * v["n"]), [{"n": n, "p": b"P" * n, "q": b"Q" * (2 * n)} for n in (1, 3, 0, 2)]),
                  (RInt("Uint16BE", "p", offset=1), RInt("Uint16BE", "q", mult=-1), [{"p": 1 + r, "q": -r} for r in (0, 0xffff, 0x1234, 1)])]
+        rf = _Refused()
         for ra, rb, seq in pairs:
-            fa, fb = ra.build(lab), rb.build(lab)
+            fa, fb = rf.build(ra, lab), rf.build(rb, lab)
+            if fa is None or fb is None:
+                continue
             for i, v in enumerate(seq):
                 for r, f in ((ra, fa), (rb, fb)):
                     enc = ref_out(lambda: r.to_bytes(dict(v)))
@@ -5478,6 +5517,7 @@ def w_reuse(lab, fams):
                         ctx = {k: x for k, x in v.items() if k != r.name}
                         fam.check("%r next to %r, use #%d: from_bytes(%r, %r)" % ((ra, rb)[r is rb], (rb, ra)[r is rb], i, ctx, enc[1] + b"\xee"),
                                   lab.f_dec(f, enc[1] + b"\xee", ctx), ref_fdec(r, enc[1] + b"\xee", ctx))
+        rf.close(fam)
     except MachUnknown as ex:
         fam.unknown = str(ex)
     except PyRaise as ex:
